@@ -58,6 +58,13 @@
 // node is torn down at every prefix.  A request whose path is torn down gets the dropped error, the
 // requests of the OTHER inputs still get their real answers (class unaffected otherwise).
 //
+// Ports (ports.go, oracle only): ONE out-port fanning out at port level to 2–3 in-ports (sinks, or
+// pass-through nodes in front of sinks); scripts of Link / Unlink (also link → unlink → link of the same
+// in-port, Link twice, Unlink of a port that is not linked), in-port / node close, and a first, second
+// and third process opening the out-port and sending requests.  A process is linked to what is linked
+// and alive when it opens the port; OutPort.Links() never lists a closed in-port (class stale-link);
+// later processes get the correct answers of the live branches (class unaffected otherwise).
+//
 // The whole enumeration runs in a child process of the harness binary: a panic inside a node
 // goroutine kills the process and is reported with the scenario that was running.
 package c03
@@ -2155,7 +2162,7 @@ func Run(c *lib.Ctx) {
 
 	// 1. corpus: hand-written crash points (witnesses of the fixed defect)
 	for i, f := range c.CorpusFiles() {
-		if isFanCorpus(f) || isWinCorpus(f) || isFanOutCorpus(f) || isJoinCorpus(f) {
+		if isFanCorpus(f) || isWinCorpus(f) || isFanOutCorpus(f) || isJoinCorpus(f) || isPortsCorpus(f) {
 			continue // run by runFanIn / runWindows
 		}
 		cc, e := parseCorpus(f, i+1)
@@ -2219,6 +2226,12 @@ func Run(c *lib.Ctx) {
 		} else {
 			unknownFails++
 		}
+		fails = append(fails, lib.OracleFail{Class: class, What: what, Replay: replay})
+	}, func(line string) { fmt.Fprintln(prog, line) }, func() bool { return unknownFails >= 6 })
+
+	// 3e. ports: port-level link / unlink / link, port-level fan-out, several processes (ports.go; oracle only)
+	runPortsFamily(c, rng, func(class, what, replay string) {
+		unknownFails++
 		fails = append(fails, lib.OracleFail{Class: class, What: what, Replay: replay})
 	}, func(line string) { fmt.Fprintln(prog, line) }, func() bool { return unknownFails >= 6 })
 
